@@ -179,8 +179,44 @@ pub fn cells(s: &str) -> Value { Value::Array(s.chars().map(|c| json!([c as u32,
 /// Attributes the library reads; everything else is ignored by the abstraction.
 const ATTRS: &[&str] = &["id", "name", "href", "alt", "src", "colspan", "start", "class", "style", "color", "bgcolor"];
 
+/// "#rrggbb" -> [r, g, b]
+fn hex_colour(v: &str) -> Option<Value> {
+    let v = v.trim();
+    if v.len() == 7 && v.starts_with('#') && v[1..].chars().all(|c| c.is_ascii_hexdigit()) {
+        let n = u32::from_str_radix(&v[1..], 16).ok()?;
+        Some(json!([(n >> 16) & 255, (n >> 8) & 255, n & 255]))
+    } else { None }
+}
+/// Canonical style attribute (as written by the generators) -> declarations; anything else is "not ok".
+/// This is abstraction of an attribute value, like cells for text: no cascade or matching here.
+fn style_decls(v: &str) -> Value {
+    let mut out = vec![];
+    for part in v.split(';') {
+        let part = part.trim();
+        if part.is_empty() { continue; }
+        let Some((p, val)) = part.split_once(':') else { return json!({"ok": false, "s": v}) };
+        let (p, mut val) = (p.trim(), val.trim());
+        let imp = val.ends_with("!important");
+        if imp { val = val[..val.len() - 10].trim(); }
+        let d = match (p, val) {
+            ("color", c) => match hex_colour(c) { Some(c) => json!({"prop": "color", "val": c, "imp": imp}), None => return json!({"ok": false, "s": v}) },
+            ("background-color", c) => match hex_colour(c) { Some(c) => json!({"prop": "bg", "val": c, "imp": imp}), None => return json!({"ok": false, "s": v}) },
+            ("display", "none") => json!({"prop": "display", "val": "none", "imp": imp}),
+            ("display", "block") => json!({"prop": "display", "val": "block", "imp": imp}),
+            ("height", "0") | ("height", "0px") => json!({"prop": "height", "val": 0, "imp": imp}),
+            ("overflow", "hidden") => json!({"prop": "overflow", "val": "hidden", "imp": imp}),
+            _ => return json!({"ok": false, "s": v}),
+        };
+        out.push(d);
+    }
+    json!({"ok": true, "s": v, "d": out})
+}
+
 fn attr_value(name: &str, v: &str) -> Value {
     match name {
+        "class" => Value::Array(v.split_whitespace().map(|c| json!(c)).collect()),
+        "style" => style_decls(v),
+        "color" | "bgcolor" => match hex_colour(v) { Some(c) => json!({"ok": true, "v": c, "s": v}), None => json!({"ok": false, "s": v}) },
         "alt" => cells(v),
         "href" => json!({"s": v, "c": cells(v)}),
         // numeric attributes: the raw value as cells (the spec transcribes str::parse)
